@@ -2,6 +2,7 @@ import Driver.Util
 import Torf.Spec.FileSize
 import Torf.Spec.FileSizeHistory
 import Torf.Model.FileSizePath
+import Torf.Model.FileSizeEnv
 open Lean Torf Torf.FileSize
 namespace Driver.C20
 
@@ -253,11 +254,85 @@ def spelling (j : Json) : Except String Json := do
                ("presentExact", jbool (allPresentExact t tree)),
                ("paths", jarr (t.listed.map fun f => jstr (Torf.Paths.strOf (reportedPath p f))))]
 
+/-! ### worlds and typed lengths (Torf.Model.FileSizeEnv) -/
+
+/-- {"t": "int" | "bool" | "float" | "frac" | "nonfinite" | "other", "v": integer} -/
+def parseNum (j : Json) : Except String PyNum := do
+  let t ← getStr j "t"
+  let v := (getInt j "v").toOption.getD 0
+  match t with
+  | "int" => return .int v
+  | "bool" => return .bool (v != 0)
+  | "float" => return .floatWhole v
+  | "frac" => return .floatFrac
+  | "nonfinite" => return .floatNonFinite
+  | "other" => return .other
+  | _ => throw s!"unknown number kind {t}"
+
+def parseNListed (j : Json) : Except String NListed := do
+  return ⟨← getStrs j "path", ← parseNum (← j.getObjVal? "len")⟩
+
+def parseNMeta (j : Json) : Except String NTorrent := do
+  let name ← getStr j "name"
+  let single ← getBool j "single"
+  let mode ← if single then (NMode.single <$> parseNum (← j.getObjVal? "length"))
+             else (NMode.multi <$> ((← getArr j "files").mapM parseNListed))
+  return ⟨name, mode, ← getNat j "pl", ← getNat j "piecesBytes"⟩
+
+def parseOpen (j : Json) : Except String (List String × OpenAnswer) := do
+  let p ← getStrs j "path"
+  match (getStr j "open").toOption.getD "opens" with
+  | "opens" => return (p, .opens)
+  | "fails" => return (p, .fails)
+  | "blocks" => return (p, .blocks)
+  | o => throw s!"unknown open answer {o}"
+
+def outGJson (r : OutG × List Call) : Json :=
+  let res := match r.1 with
+    | .res x => resJson x
+    | .internal => jobj [("raised", jarr [jstr "internal"])]
+    | .hangs => jobj [("raised", jarr [jstr "hang"])]
+  jobj [("res", res), ("calls", jarr (r.2.map callJson))]
+
+/-- op `c20.env` : {name, single, length | files (lengths as typed numbers), pl, piecesBytes,
+      fs : [{path, kind, n, open}…], cb}
+    ↦ model = `verifyFilesizeG code` in the world (stat answers + open answers);
+      spec  = `spec` on the erased torrent and the stat answers behind the type gate (what
+              `C20_env_refines` prescribes);
+      probe / intfmt = the two excluded variants (statistics only);
+      hyp = WF (erased) ∧ plain components -/
+def env (j : Json) : Except String Json := do
+  let nt ← parseNMeta j
+  let ents ← getArr j "fs"
+  let st := mkFS (← ents.mapM parseEntry)
+  let os ← ents.mapM parseOpen
+  let opens : List String → OpenAnswer := fun p =>
+    match os.find? (fun e => e.1 == p) with
+    | some e => e.2
+    | none => .opens
+  let w : World := ⟨st, opens⟩
+  let cb ← parseCb j
+  let t := nt.erase
+  let model := verifyFilesizeG code nt w cb
+  let sp : OutG × List Call :=
+    if nt.lengthsValid then lift (spec t st cb) else (.res (.raised .metainfo), [])
+  let vp := verifyFilesizeG ⟨true, false⟩ nt w cb
+  let vf := verifyFilesizeG ⟨false, true⟩ nt w cb
+  let hyp := decide (WF t) && plain nt.name && t.listed.all (fun f => f.path.all plain)
+  return jobj [("model", outGJson model), ("spec", outGJson sp), ("modelEqSpec", jbool (model == sp)),
+               ("probeDiffers", jbool (vp != model)), ("intfmtDiffers", jbool (vf != model)),
+               ("hyp", jbool hyp), ("valid", jbool (validateN nt)),
+               ("allGood", jbool (allGood t st)),
+               ("errs", jarr (t.listed.map fun f => jopt errJson (errOf st f))),
+               ("singleAtDir", jbool (singleAtDir t st)),
+               ("presentExact", jbool (allPresentExact t st))]
+
 def handle (op : String) (j : Json) : Except String Json :=
   match op with
   | "c20.verify" => verify j
   | "c20.history" => history j
   | "c20.spelling" => spelling j
+  | "c20.env" => env j
   | _ => throw s!"unknown op {op}"
 
 end Driver.C20
